@@ -268,6 +268,10 @@ def _compare(  # noqa: C901, PLR0912
         **kwargs,
     ):
         if change.typ == ADD:
+            if change.old is not None:
+                # NOTE: old entry without meta and hash (broken symlink)
+                # is in the way and has to be replaced.
+                _add_delete(change.old)
             _add_create(change.new)
         elif change.typ == DELETE:
             if not delete:
